@@ -410,7 +410,7 @@ class InterfaceGen:
         if n == "string":
             if self.p["str_defaults"]:
                 return t.pick(['""', '"hello"', '"a, b"', '"x;y"', '"(unbalanced"', '"it\'s"',
-                               '"café"'], "dflt-str")
+                               '"café"', '"http://x.org/a"', '"/* not a comment */"'], "dflt-str")
             return '""'
         if n.startswith("gtsam::") and n[7:] in ("Vector", "Matrix", "Point2", "Point3"):
             return t.pick(["%s()" % n, "%s(1, 2)" % n if n.endswith("Point2") else "%s()" % n],
